@@ -272,6 +272,8 @@ def main(pid, tier, repo=None):
     c11.rule_forward(ctx)
     c11.rule_sites(ctx)
     c11.rule_drop(ctx)
+    from . import fixguards
+    fixguards.run(ctx, pid)
     ctx.not_decided("equality of headers, frame offsets, auxiliary data and samples between two executions (relational, value-level); "
                     "the offset arithmetic of the frame loader")
     return ctx.finish(
